@@ -113,6 +113,12 @@ var c12Families = []struct {
 		fmt.Fprintf(&sb, "T | where x%d > 0", n)
 		return sb.String()
 	}},
+	{"nested-joins-error-innermost", func(n int) string {
+		return "T" + strings.Repeat(" | join kind=inner (R", n) + " | where " + strings.Repeat(") on k", n)
+	}},
+	{"nested-joins-two-errors", func(n int) string {
+		return "T | take 1.5" + strings.Repeat(" | join (R | bogus", n) + " | project" + strings.Repeat(") on $left.a == $right.b", n) + " | top x by"
+	}},
 	{"unbalanced-close", func(n int) string { return "T | where a" + strings.Repeat(")", n) }},
 	{"unbalanced-open", func(n int) string { return "T | where " + strings.Repeat("(", n) }},
 	{"open-brackets", func(n int) string { return "T | where " + strings.Repeat("a[(", n) }},
